@@ -61,6 +61,18 @@ POOL_COERCER = [
     ("invalid-variables", DOC_A, None, {"s": "nope"}, {}, 1, "scn"),
     ("fine", DOC_E, None, None, {}, 1, "scn"),
 ]
+# requests for an engine whose schema is marked @nonIntrospectable and whose sibling fields are awaited one after the other (so that
+# the introspection root field is reached only after an ordinary resolver has suspended): the refusal must not depend on what else is
+# in flight
+POOL_NI = [
+    ("introspection-after-field", "{ num __schema { queryType { name } } }", None, None, {}, 1, "scn"),
+    ("type-introspection-after-field", "{ color __type(name: \"A\") { name } }", None, None, {}, 1, "scn"),
+    ("plain", "{ num color }", None, None, {}, 2, "scn"),
+    ("plain-nested", "{ a { id } num }", None, None, {}, 1, "scn"),
+    ("typename-only", "{ __typename num }", None, None, {}, 1, "scn"),
+]
+NI_SDL = seeds.K_SDL + "\nschema @nonIntrospectable { query: Query mutation: Mutation subscription: Subscription }\n"
+NI_KW = {"sdl": NI_SDL, "typecfg": {"resolver_kwargs_all": {"parent_concurrently": False}}}
 COERCER_SCHED = [None]
 
 
@@ -98,7 +110,7 @@ def ctx_of(scn, kind):
 def alone(schema, req, coercer=False):
     """the request run alone on a fresh engine (no cache history)"""
     COERCER_SCHED[0] = None
-    engine = harness.build_engine(schema, **({"error_coercer": annotating_coercer} if coercer else {}))
+    engine = harness.build_engine(schema, **(NI_KW if coercer == "ni" else {"error_coercer": annotating_coercer} if coercer else {}))
     scn = mk_scn(schema, req)
     scn.reset()
     harness.CURRENT[0] = scn
@@ -115,7 +127,9 @@ def shards(tier, seed):
         combos += [c for c in itertools.combinations_with_replacement(range(len(POOL)), 3) if len(set(c)) >= 2][::3]
     items = [(c, tier) for c in combos]
     items += [(c, tier, "coercer") for c in itertools.combinations_with_replacement(range(len(POOL_COERCER)), 2)]
+    items += [(c, tier, "ni") for c in itertools.combinations_with_replacement(range(len(POOL_NI)), 2)]
     if tier == "thorough":
+        items += [(c, tier, "ni") for c in itertools.combinations_with_replacement(range(len(POOL_NI)), 3)]
         items += [(c, tier, "coercer") for c in itertools.combinations_with_replacement(range(len(POOL_COERCER)), 3) if len(set(c)) >= 2][::3]
     return items
 
@@ -125,8 +139,8 @@ _ALONE = {}
 
 def run_shard(item):
     combo, tier = item[0], item[1]
-    coercer = len(item) > 2
-    pool = POOL_COERCER if coercer else POOL
+    coercer = item[2] if len(item) > 2 else False  # False | "coercer" | "ni"
+    pool = POOL_NI if coercer == "ni" else POOL_COERCER if coercer else POOL
     schema = seeds.K
     out = {"counts": {"schedules": 0, "choice_points": 0, "multisets": 1, "nontrivial": 0, "probes": 0}, "tables": {"outcomes": {}},
            "sets": {}, "samples": [], "violations": [], "machinery": [], "caps": []}
@@ -135,7 +149,8 @@ def run_shard(item):
         if (coercer, req[0]) not in _ALONE:
             _ALONE[(coercer, req[0])] = alone(schema, req, coercer)
     # ONE engine shared by every multiset this worker handles
-    engine = explore.engine_for("K-c15-coercer", schema, error_coercer=annotating_coercer) if coercer else explore.engine_for("K-c15", schema)
+    engine = (explore.engine_for("K-c15-ni", schema, **NI_KW) if coercer == "ni"
+              else explore.engine_for("K-c15-coercer", schema, error_coercer=annotating_coercer) if coercer else explore.engine_for("K-c15", schema))
     loop = sched.VLoop()
     reqs = [pool[i] for i in combo]
     scns = [mk_scn(schema, r) for r in reqs]
@@ -146,7 +161,7 @@ def run_shard(item):
         for scn in scns:
             scn.reset()
             scn.sched = s
-        COERCER_SCHED[0] = s if coercer else None
+        COERCER_SCHED[0] = s if coercer == "coercer" else None
         harness.CURRENT[0] = None
         harness.fresh_shared_errors()
 
@@ -194,7 +209,8 @@ def run_shard(item):
     if state["viol"]:
         clause, victim, detail, choices = state["viol"]
         out["violations"].append({
-            "signature": ("%s|annotating-error-coercer" % clause) if coercer
+            "signature": ("%s|non-introspectable-schema" % clause) if coercer == "ni"
+            else ("%s|annotating-error-coercer" % clause) if coercer
             else ("%s|shared-exception-object" % clause) if victim.startswith("shared-exception")
             else "%s|victim=%s|with=%s" % (clause, victim, "+".join(sorted(r[0] for r in reqs))),
             "summary": "%s: requests %r victim %s schedule %r: %s" % (clause, [r[0] for r in reqs], victim, choices, detail[:900]),
@@ -217,11 +233,12 @@ def finish(agg, tier):
                 "interleaving a probe request. non-trivial = interleavings deviating from FIFO. Every response must equal the solo run "
                 "on a fresh engine. The same over a second pool of %d erroring requests (two invalid documents breaking the same rule, "
                 "another rule, library / shared / plain exceptions, invalid variables) on an engine whose custom error coercer annotates "
-                "the error dict it receives and suspends in between (a choice point of the explorer)" % ("2" if tier == "quick" else "2-3", len(POOL), " and a third of the 3-multisets" if tier == "thorough" else "", len(POOL_COERCER)),
+                "the error dict it receives and suspends in between (a choice point of the explorer), and over a third pool (introspection and "
+                "ordinary requests) on an engine whose schema is @nonIntrospectable and whose sibling fields run one after the other" % ("2" if tier == "quick" else "2-3", len(POOL), " and a third of the 3-multisets" if tier == "thorough" else "", len(POOL_COERCER)),
         "exhaustive": True,
     }
 
 
 def replay(rec):
     r = rec["replay"]
-    return run_shard((tuple(r["combo"]), "quick") + (("coercer",) if r.get("coercer") else ()))["violations"]
+    return run_shard((tuple(r["combo"]), "quick") + ((r["coercer"],) if r.get("coercer") else ()))["violations"]
